@@ -509,13 +509,17 @@ def r02_8(chk):
     import hashlib
     import json
     from pathlib import Path
-    from ..frozen import compare
+    from ..frozen import compare, compare_formulas
+    for rel, fn, what in ((I10, "_xys", "X, Y, s with EOP corrections"), (I10, "precesion_nutation", "CIO-based matrix"), (I80, "rate", "Earth rotation rate"), (I10, "rate", "Earth rotation rate")):
+        f = chk.repo.func(rel, fn)
+        compare_formulas(chk, "R02.8", f"{rel}::{fn}", f.node, loc(f, f.node), what)
     for rel, fn, what in ((I80, "_precesion", "IAU-76 precession polynomials"), (I80, "_nutation", "IAU-80 fundamental arguments"),
                           (I80, "equinox", "equation of the equinoxes, kinematic terms"), (I80, "_sideral", "GMST polynomial (IAU-82)"),
                           (I10, "_planets", "IERS 2010 fundamental arguments"), (I10, "_xysxy2", "IERS 2010 X, Y, s polynomial parts"),
                           (I10, "_sideral", "Earth rotation angle"), (I10, "_earth_orientation", "TIO locator s′")):
         f = chk.repo.func(rel, fn)
         compare(chk, "R02.8", f"{rel}::{fn}", f.node, loc(f, f.node), what)
+        compare_formulas(chk, "R02.8", f"{rel}::{fn}", f.node, loc(f, f.node), what)
     ref = json.loads((Path(__file__).resolve().parent.parent / "data" / "tables.json").read_text())
     for name, want in sorted(ref.items()):
         p = chk.repo.root / "beyond" / "frames" / "data" / name
@@ -538,7 +542,7 @@ def r02_8(chk):
     t = unparse(t10.node)
     ok = "elements = ['tab5.2a.txt', 'tab5.2b.txt', 'tab5.2d.txt']" in t and "fields = line.split()[1:]" in t and "fields[:2] = [float(x) for x in fields[:2]]" in t and "fields[2:] = [int(x) for x in fields[2:]]" in t
     chk.inst("R02.8", f"{t10.ref}", ok, "X, Y, s tables; index dropped, two amplitudes, integer multipliers" if ok else "reader changed", loc(t10, t10.node))
-    chk.floor("R02.8", 14)
+    chk.floor("R02.8", 26)
 
 
 def run(chk):
